@@ -162,7 +162,8 @@ def visitor_table(ctx: Ctx, I: Interp) -> None:
     vfn = visitor.node
     vp = [a.arg for a in vfn.args.args]
     ctx.require(len(vp) == 1, "visitor signature changed")
-    wv = f"{JSX}:JSXTag.tagify.{vfn.name}"
+    vname = getattr(vfn, "name", "<lambda>")
+    wv = f"{JSX}:JSXTag.tagify.{vname}"
 
     def body(run: Any) -> Tuple[Any, ...]:
         s = SObj("self", {"JSXTAG"})
@@ -173,13 +174,17 @@ def visitor_table(ctx: Ctx, I: Interp) -> None:
         fr = Frame(f, env)
         run.ev.frames.append(fr)
         try:
+            vis = None
             for st in fn.body:
-                if isinstance(st, ast.FunctionDef) and st.name == vfn.name:
-                    run.ev.exec(st)
+                wcall = [n for n in ast.walk(st) if isinstance(n, ast.Call) and isinstance(n.func, ast.Name) and n.func.id == "_walk_attrs_and_children"
+                         and len(n.args) == 2] if not isinstance(st, ast.FunctionDef) else []
+                if wcall:
+                    vis = run.ev.eval(wcall[0].args[1])      # the visitor: a nested function or a lambda, with its closure
                     break
-                if isinstance(st, (ast.Assign, ast.AnnAssign, ast.Expr)):
+                if isinstance(st, (ast.FunctionDef, ast.Assign, ast.AnnAssign, ast.Expr)):
                     run.ev.exec(st)
-            vis = fr.env[vfn.name]
+            if not isinstance(vis, SFunc):
+                raise Unmodelled("JSXTag.tagify: the visitor handed to the walker is not a function value")
             x = SObj("x", ANY_VALUE_KINDS)
             run.__dict__["o"] = (x, {k: v for k, v in fr.env.items()})
             try:
@@ -252,32 +257,55 @@ def visitor_table(ctx: Ctx, I: Interp) -> None:
 
 
 def react_files(ctx: Ctx) -> None:
+    """The HTMLDependency objects that JSXTag.tagify creates for the React libraries (read from Engine A's run of tagify with
+    _lib_dependency interpreted): a pinned version exists and the script file is in the package's lib directory."""
     prog = ctx.prog
     where = f"{JSX}:_lib_dependency"
-    fn = prog.function(JSX, "_lib_dependency")
     versions = prog.fold_name("htmltools._versions", "versions")
     ctx.require(isinstance(versions, dict), "versions table not folded")
-    # calls of _lib_dependency in JSXTag.tagify with constant arguments
-    t = prog.function(JSX, "JSXTag.tagify")
-    calls = [n for n in ast.walk(t) if isinstance(n, ast.Call) and isinstance(n.func, ast.Name) and n.func.id == "_lib_dependency"]
-    ctx.require(len(calls) >= 2, "JSXTag.tagify no longer creates the library dependencies")
-    root = getattr(prog, "root", REPO)
-    for c in calls:
-        try:
-            pkg = prog.fold(c.args[0], prog.jsx())
-            script = prog.fold([k.value for k in c.keywords if k.arg == "script"][0] if c.keywords else c.args[1], prog.jsx())
-        except Exception:
-            ctx.require(False, f"cannot fold arguments of {norm(c)}")
-        ctx.check(pkg in versions, "C20.files", f"versions has an entry for {pkg}", "htmltools._versions:versions", f"versions keys {sorted(versions)}",
-                  f"no pinned version for {pkg}")
-        src = script.get("src") if isinstance(script, dict) else None
-        path = os.path.join(root, "htmltools", "lib", str(pkg), str(src))
-        ctx.check(os.path.isfile(path), "C20.files", f"htmltools/lib/{pkg}/{src} exists in the package", where, f"lib/{pkg}/{src}",
-                  f"the script file lib/{pkg}/{src} named by the {pkg} dependency does not exist in the working tree",
-                  witness=f"Foo().tagify().get_dependencies()  ->  copy_to fails for {pkg}")
-    # subdir expression
+    fn = prog.function(JSX, "JSXTag.tagify")
+    I = Interp(prog)
     cfg = Config()
     cfg.opaque_all = True
+    cfg.coarse_counts = True
+    cfg.inline = {"_lib_dependency"}
+
+    def mk(run: Any):
+        s_ = SObj("self", {"JSXTAG"})
+        return ({fn.args.args[0].arg: s_}, s_)
+
+    root = getattr(prog, "root", REPO)
+    seen: Dict[str, Any] = {}
+    for l in I.run_function(JSX, "JSXTag.tagify", mk, cfg):
+        for e in l.effects:
+            if e.kind == "new" and isinstance(e.target, SNew) and e.target.cls_name == "HTMLDependency":
+                kw = dict(e.target.kwargs)
+                pos = list(e.target.args)
+                pkg = kw.get("name", pos[0] if pos else None)
+                seen[str(pkg)] = (kw, pos)
+    ctx.require(len(seen) >= 2, "JSXTag.tagify no longer creates the library dependencies")
+    for pkg, (kw, pos) in sorted(seen.items()):
+        ctx.check(pkg in versions, "C20.files", f"versions has an entry for {pkg}", "htmltools._versions:versions", f"versions keys {sorted(versions)}",
+                  f"no pinned version for {pkg}")
+        script = kw.get("script")
+        if isinstance(script, SDict) and script.concrete:
+            src = script.items.get("src")
+        elif isinstance(script, dict):
+            src = script.get("src")
+        else:
+            src = None
+        if isinstance(src, SStr) and src.is_const():
+            src = src.const()
+        ctx.require(isinstance(src, str), f"script item of the {pkg} dependency is not a constant {{'src': ...}} ({short(script)})")
+        source = kw.get("source")
+        sub = source.items.get("subdir") if isinstance(source, SDict) else (source.get("subdir") if isinstance(source, dict) else None)
+        if isinstance(sub, SStr) and sub.is_const():
+            sub = sub.const()
+        ctx.require(isinstance(sub, str), f"source of the {pkg} dependency is not a constant package sub-directory ({short(source)})")
+        path = os.path.join(root, "htmltools", str(sub), str(src))
+        ctx.check(os.path.isfile(path), "C20.files", f"htmltools/{sub}/{src} exists in the package", where, f"{sub}/{src}",
+                  f"the script file {sub}/{src} named by the {pkg} dependency does not exist in the working tree",
+                  witness=f"Foo().tagify().get_dependencies()  ->  copy_to fails for {pkg}")
 
 
 def serialize_table(ctx: Ctx, I: Interp) -> None:
